@@ -35,13 +35,13 @@ THEOREMS = {
     'C07_abbreviate': 'abbreviate(): the pieces (cut at white space / hyphens outside Protected, separators kept) spell the text; the result spells, piece by piece, first character + period for an alphabetic piece (str.isalpha of the interpreter) and the piece itself otherwise',
     'C07_unicode_keys': "person keys of author_year_title are normalised with str.lower (idempotent; persons differing in ASCII letter case only get the same key); _strip_nonalnum yields ASCII letters and digits only (table regenerated from unicodedata); this is ALL that is proved about the sort key beyond the model's definition",
     'C07_name_style_parts': "the shipped name styles INSIDE the model (formatName = plain / lastfirst NameStyle().format): when the template is produced (every word of the person parses) the name words on its evaluated path (printedN, fuel >= 6) are exactly Text.from_latex of the person's words - plain: first+middle, von, last, lineage; lastfirst: von, last, lineage, first+middle - and only the first+middle words carry the abbreviation flag, equal to abbr (closes the gap 'oracle only' of C07_name_coverage)",
-    'C07_person_words_shown': "composition with C07_name_coverage: if the name style produces template t for a person and t evaluates to r (fuel >= 6), every word w of the person parses to a rich text x and str(r) contains str(x) contiguously (von / last / lineage words; first / middle names without abbr) resp. str(x.abbreviate()) (first / middle names with abbr); whole bibliography: through C07_name_coverage's pipeline part",
+    'C07_person_words_shown': "composition with C07_name_coverage: if the name style produces template t for a person and t evaluates to r (fuel >= 6), every word w of the person parses to a rich text x and str(r) contains str(x) contiguously (von / last / lineage words; first / middle names without abbr) resp. str(x.abbreviate()) (first / middle names with abbr); whole bibliography: through C07_name_coverage's pipeline part; stated for the name template evaluated on its own - the lift to whole formatted entries (names node -> personTemplatesOf -> f.text, fuel >= 6 left at the names node) is NOT stated as a theorem: the identification of the entry's name words with the persons' words is carried by the correspondence check (shipped.person_templates)",
     'C07_person_words_shown_nonvacuous': "non-vacuity: 'de Sartre, Jr, Jean-Paul' - the model builds the expected plain / lastfirst templates (by rfl) and they print 'J.-P. de<nbsp>Sartre, Jr' / 'de<nbsp>Sartre, Jr, J.-P.'; a word a}b gives no template",
     'C07_name_style_requires_nothing': 'a name template of the shipped name styles contains no field / names node: it adds nothing to the lookups that can be reported missing',
     'C07_shipped_terminated': "the templates of unsrt.py INSIDE the model (getTemplate): for article, booklet, dataset, manual, mastersthesis, misc, online, patent, phdthesis, proceedings, software, techreport, unpublished and for book / inbook entries with an editor the template satisfies endsInSentence for EVERY entry (was: monitored on samples); pipeline (formatBibliographyShipped, hypothesis: the keys of the database are pairwise distinct): every formatted entry of such an entry is empty or ends with . ? !; incollection / inproceedings stay excluded (finding C07-blank-field-in-unterminated)",
     'C07_shipped_required': "for each of the seventeen entry types (hypothesis: the type is one of them) the field / names lookups of the model's template outside every optional are the list Spec.requiredOf (article: author, title, journal, year; book / inbook: editor standing for author-or-editor, title, publisher, year; ...; misc-like types: nothing): with C07_missing_required_eval only these can be reported missing",
     'C07_shipped_required_nonvacuous': 'non-vacuity: the article example entry gets articleTemplate, its required list, 17 types, article is a terminatingEntry, incollection is not',
-    'C07_shipped_types': "the model has a template for exactly the entry types that have a get_<type>_template method in /repo (Gen.pyStyleTypes, regenerated); the message of the BibliographyDataError for other types is composed from the regenerated pieces",
+    'C07_shipped_types': 'the model has a template for exactly the entry types that have a get_<type>_template method in /repo (Gen.pyStyleTypes, regenerated); the message of the BibliographyDataError for other types is composed from the regenerated pieces [table tie; the message conjunct is ONE kernel-evaluated instance (webpage / k1) built from the regenerated pieces]',
     'C07_style_configuration': "BaseStyle.__init__ on the regenerated class attributes / group defaults: unsrt = plain names, number labels, citation order; plain = author_year_title; alpha = alpha labels + author_year_title; unsrtalpha = alpha labels + citation order; explicitly given label / name / sorting style and abbreviate_names always win (all 4 x 2 x 2 x 2 x 2 combinations)",
     'C07_shipped_pipeline': "[model wiring] formatBibliographyShipped (when defined: every name word parses) is formatBibliography on the model's own items (templates of Model/UnsrtStyle, name templates of Model/NameStyle), citations None = the keys of the database in order: every C07 theorem stated for arbitrary items applies to it",
     'C07_alpha_base_label': 'alpha base labels (format_label): end with year[-2:] when the entry has a year; the part made from persons (format_lab_names) consists of ASCII letters, digits and + only; for ordinary entry types with authors the base label is format_lab_names(authors) + year suffix',
